@@ -304,8 +304,12 @@ def exec_ops(ctx, po, tally, notes):
         else:
             key = (ab["what"], c["form"], kind.get(c["a"][0], "?"), norm_msg(ab.get("fatal") or ab.get("detail")) if ab["what"] != "hang" else "")
         groups[key].append(ab)
-    for key in groups:   # smallest first: operands in the order of the specification's code list
-        groups[key].sort(key=lambda ab: ([codes.index(a) if a != "none" else -1 for a in reversed(ab["case"]["a"][1:])], codes.index(ab["case"]["a"][0])))
+    ixorder = meta["ix"]
+
+    def rank(a):     # index codes in the order the specification lists them (None, 0, 1, -1, 2, -2, len, ...), then the rest
+        return ixorder.index(a) if a in ixorder else len(ixorder) + codes.index(a)
+    for key in groups:   # smallest first: last operand (step) first, receivers in the order of the code list
+        groups[key].sort(key=lambda ab: ([rank(a) for a in reversed(ab["case"]["a"][1:])], codes.index(ab["case"]["a"][0])))
 
     def sig_of(key, ab):
         c = ab["case"]
